@@ -27,7 +27,7 @@ def main() -> int:
     if a.replay:
         from . import replay
 
-        return replay.run(a.prop, a.replay)
+        return replay.replay(a.prop, a.replay)
     fn = checks.REGISTRY.get(a.prop)
     if fn is None:
         print(f"no check registered for {a.prop}", file=sys.stderr)
